@@ -156,6 +156,8 @@ def step (s : State) : Op → State × Out
       | .finished =>
           ({ s with pc := upd s.pc c .returned },
            .retd (match s.kind c with | .index => s.res c | .tryer => 3))
+      -- a refused TryLock owes no release: returning without calling `done` is fine
+      | .refused => ({ s with pc := upd s.pc c .returned }, .retd 3)
       | _ => (s, .bad)
   | .bctx c =>
       match s.pc c with
